@@ -113,7 +113,8 @@ Fixpoint lookup_id (r : N) (l : list (N * N)) : option N :=
 
 Definition is_zero_bits (b : Z) : bool := Z.eqb b 0 || Z.eqb b 9223372036854775808.
 
-(* NOTE (phase 2): this is the code AFTER the fix commits 861b016 / cb04f65 / 1eafc63: complex keys use
+(* NOTE (phase 2): this is the code AFTER the fix commits 861b016 / cb04f65 / 1eafc63 / 0da9cd0 ($ifaceKeyFor throws for
+   an uncomparable dynamic type; the type objects' comparable flags are taken to be exact, see ASSUMPTIONS): complex keys use
    $floatKey on both parts, array keyFor throws for an uncomparable array type and maps to a plain
    array (no typed-array coercion), struct keyFor skips blank fields. *)
 
@@ -253,10 +254,12 @@ Fixpoint key_for (t : kty) (v : val) (s : st) {struct v} : option jskey * st :=
   | TRef, VRef r => let (k, s') := id_key r s in (Some (KStr k), s')
   | TIface, VNil => (Some (KStr (of_string "nil")), s)
   | TIface, VDyn d x =>
-      match key_for (d_shape d) x s with
-      | (Some k, s') => (Some (KStr (iface_prefix d ++ DOLLAR :: key_str k)), s')
-      | (None, s') => (None, s')
-      end
+      if comparable (d_shape d) then     (* else $throwRuntimeError("hash of unhashable type " + c.string)  (0da9cd0) *)
+        match key_for (d_shape d) x s with
+        | (Some k, s') => (Some (KStr (iface_prefix d ++ DOLLAR :: key_str k)), s')
+        | (None, s') => (None, s')
+        end
+      else (None, s)
   | TArray _ e, VArr l =>
       if comparable e then      (* typ.comparable = elem.comparable; else $throwRuntimeError("hash of unhashable type ..") *)
         match keys_arr (fun x s => key_for e x s) (fun _ k => escape (key_str k)) l s with
